@@ -42,8 +42,14 @@ def spec(th, seed):
         units.extend(unit('std-c++20', 'plain', ['-std=c++20'], None))
         units.extend(unit('mavx2', 'plain', ['-mavx2', '-mfma'], None))
 
+    # optimisation levels can also change results by what they make visible to the library (__builtin_constant_p, constant folding of inlined code):
+    # the constant-argument supplement (literal vs. volatile-sourced scalar arguments inside one build) at the optimising levels
+    for nm, fs in (('O2', 'plain'),) + ((('O3', 'plainO3'), ('O1', 'plainO1'), ('clang', 'clang')) if th else ()):
+        cu = U('C15_constarg.' + nm, 'mon/constarg.cpp', fs, defs=['-DCONST_PROP=11']); cu.plainmon = True; cu.part = 0; cu.cfgname = 'constarg'; units.append(cu)
+
     def pre(bdir, repo, us):
         for u in us:
+            if getattr(u, 'plainmon', False): continue
             u.args = [a for a in u.args if not a.startswith('--x-digest')] + ['--x-digest', os.path.join(bdir, u.name + '.digest')]
             # drop a stale pair value
             if '--x-digest' in u.args:
@@ -61,6 +67,7 @@ def spec(th, seed):
             return d
         ncmp = 0
         for u in us:
+            if getattr(u, 'plainmon', False): continue   # ordinary monitors (own verdicts), not digest builds
             ref = byname.get(REF + ('' if u.part == 1 else '.part2'))
             if u is ref: continue
             if getattr(u, 'skipped', None):
